@@ -9,6 +9,7 @@ import (
 
 	"github.com/AliceO2Group/Control/common/event"
 	"github.com/AliceO2Group/Control/core/task"
+	"github.com/AliceO2Group/Control/core/task/sm"
 	"github.com/AliceO2Group/Control/core/workflow"
 	vrt "github.com/AliceO2Group/Control/zz_vrt"
 )
@@ -41,11 +42,22 @@ func HarnessEnvironmentFollowsTaskVerdict() {
 			workflow.VerifSetStatus(r, task.INACTIVE)
 		}
 	}
+	// a task that announced an internal error a moment ago and is still alive: its role is ACTIVE and in ERROR; the
+	// transition commands it like any other (and learns from its answer that it cannot follow)
+	if !allInactive {
+		for _, r := range roles {
+			if vrt.Bool("task.already.in.error") {
+				workflow.VerifSetState(r, sm.ERROR)
+			}
+		}
+	}
+	commanded := -1
 	// the task manager answers with the verdict - and, like the real one, with an error when asked to configure nothing
 	tm := &task.Manager{MessageChannel: make(chan *task.TaskmanMessage, 4)}
 	go func() {
 		for msg := range tm.MessageChannel {
 			rec.add("taskman:message")
+			commanded = task.VerifMessageTaskCount(msg)
 			var err error
 			if tasksFail || (ev == 0 && task.VerifMessageTaskCount(msg) == 0) {
 				err = errors.New("a critical task could not make the transition")
@@ -72,6 +84,9 @@ func HarnessEnvironmentFollowsTaskVerdict() {
 		return
 	}
 	vrt.Assert(sent == 1, "one-command-per-transition")
+	if !allInactive {
+		vrt.Assert(commanded == ntasks, "every-active-task-is-commanded-whatever-state-it-is-in")
+	}
 	if tasksFail {
 		vrt.Assert(err != nil, "task-failure-is-returned-to-the-caller")
 		vrt.Assert(env.CurrentState() == src, "destination-never-reported-after-a-task-failure")
